@@ -155,8 +155,8 @@ func triage(p *plan, findings []finding) (known map[string]int, reported []strin
 		if rp.Tape == nil {
 			rp.Tape = vr.Tape
 		}
-		os.MkdirAll(filepath.Join(verifDir, "replays"), 0755)
-		path := filepath.Join(verifDir, "replays", fmt.Sprintf("%s-%s-%s-%d.json", p.ID, strings.ReplaceAll(f.Workload, ".", "_"), res.Class, res.Seed))
+		os.MkdirAll(filepath.Join(outDir, "replays"), 0755)
+		path := filepath.Join(outDir, "replays", fmt.Sprintf("%s-%s-%s-%d.json", p.ID, strings.ReplaceAll(f.Workload, ".", "_"), res.Class, res.Seed))
 		if err := rp.Write(path); err != nil {
 			infra = append(infra, err.Error())
 			continue
